@@ -109,6 +109,36 @@ fn nested_programs() -> Vec<(&'static str, Program, Vec<Vec<Val>>)> {
         }
     }
     out.push(("call-in-index-in-assignment", p, ins));
+    // assignments through two index accessors, the inner index can fail while the outer one is out of range
+    {
+        let g_ty = Ty::arr(Ty::arr(u8t.clone(), 2), 2);
+        let p_ty = Ty::arr(Ty::Tup(vec![Ty::arr(u8t.clone(), 2), u8t.clone()]), 2);
+        let e = || cast(bin(BinOp::Div, var("x"), var("y")), Ty::usize());
+        let p = Program::simple_main(
+            vec![("g", g_ty.clone()), ("q", p_ty.clone()), ("i", Ty::usize()), ("x", u8t.clone()), ("y", u8t.clone())],
+            Ty::Tup(vec![g_ty.clone(), p_ty.clone()]),
+            vec![
+                let_mut("h", var("g")),
+                let_mut("w", var("q")),
+                assign("h", vec![Acc::Index(var("i")), Acc::Index(e())], u8l(7)),
+                op_assign("h", vec![Acc::Index(e()), Acc::Index(var("i"))], BinOp::Add, var("x")),
+                assign("w", vec![Acc::Index(var("i")), Acc::Tup(0), Acc::Index(e())], var("y")),
+                assign("w", vec![Acc::Index(e()), Acc::Tup(1)], bin(BinOp::Add, var("x"), u8l(250))),
+                expr_stmt(tup(vec![var("h"), var("w")])),
+            ],
+        );
+        let gv = Val::Arr(vec![Val::Arr(vec![Val::u8(1), Val::u8(2)]), Val::Arr(vec![Val::u8(3), Val::u8(4)])]);
+        let qv = Val::Arr(vec![Val::Tup(vec![Val::Arr(vec![Val::u8(5), Val::u8(6)]), Val::u8(7)]), Val::Tup(vec![Val::Arr(vec![Val::u8(8), Val::u8(9)]), Val::u8(10)])]);
+        let mut ins = vec![];
+        for i in [0u64, 1, 2, 5] {
+            for x in [0u8, 1, 3, 6] {
+                for y in [0u8, 1, 2, 3] {
+                    ins.push(vec![gv.clone(), qv.clone(), Val::Int(i as i128, IntTy::Usize), Val::u8(x), Val::u8(y)]);
+                }
+            }
+        }
+        out.push(("nested-index-assignment-with-failing-inner-index", p, ins));
+    }
     // an enum in a struct in an array, matched with nested patterns and rebuilt
     let mut defs = Defs::default();
     defs.add_enum("Kq", vec![("None", None), ("One", Some(vec![u8t.clone()])), ("Pair", Some(vec![Ty::Tup(vec![u8t.clone(), Ty::Bool]), Ty::arr(u8t.clone(), 2)]))]);
